@@ -124,6 +124,7 @@ type c14state struct {
 	vclk      int64 // model of the virtual clock (absolute nanos; MinInt64 = zero time)
 	id        int
 	nontr     bool
+	rejected  []string // tables for which the model rejected the last offered point as expired
 }
 
 // offer applies the property's acceptance rule: a point older than the
@@ -143,6 +144,9 @@ func (s *c14state) offer(pt *Point) error {
 		if s.vclk != math.MinInt64 || !s.p.Cfg.VirtualTime {
 			if abs < now-mt.Def.RetNanos {
 				s.e.Count("probe.rejected-expired")
+				if pt.HasNumeric() && EvalPred(mt.Def.effWhere(), pt.Dims) == pTrue {
+					s.rejected = append(s.rejected, name)
+				}
 				continue
 			}
 			if !s.p.Cfg.VirtualTime && abs < now-mt.Def.RetNanos+int64(500*time.Millisecond) {
@@ -351,14 +355,28 @@ func execC14(e *Env, p *Plan) error {
 				cp.TS = time.Now().UnixNano() - BaseNanos - age
 				op = &Op{K: "ins", P: &cp, N: op.N}
 			}
+			insertedBefore := map[string]int64{}
+			for _, name := range sortedTables(s.m) {
+				insertedBefore[name] = s.n.DB.TableStats(name).InsertedPoints
+			}
 			if err := s.n.Insert(op.P); err != nil {
 				return err
 			}
 			// the decision is taken when the point is processed: settle now
+			s.rejected = nil
 			if err := s.offer(op.P); err != nil {
 				return err
 			}
 			e.Settle()
+			// a point that is older than a table's retention when it is
+			// processed is not stored there: the table's own count of stored
+			// points says whether it was (queries cannot: their window hides it)
+			for _, name := range s.rejected {
+				if got := s.n.DB.TableStats(name).InsertedPoints; got != insertedBefore[name] {
+					return &Violation{"expired-point-stored", fmt.Sprintf("point %d (timestamp %v) was older than the retention of %s (%v) when it was processed, but the table counts %d more stored point(s)", op.P.ID, time.Duration(op.P.TS), name, time.Duration(s.m.Tables[name].Def.RetNanos), got-insertedBefore[name])}
+				}
+				e.Count("probe.expired-point-count-checked")
+			}
 		case "flush":
 			s.n.DB.FlushAll()
 		case "adv":
